@@ -97,11 +97,16 @@ func loopbackSessions(r *harness.EvRun) {
 		}
 	}
 	type sess struct{ c, s []byte }
+	var quarterMB []byte
+	for i := 0; len(quarterMB) < 256*1024; i++ {
+		quarterMB = append(quarterMB, ref.TypedFrame(1230, 8, func(k int) byte { return byte(i + k) })...)
+	}
 	cases := []struct {
 		name     string
 		quiet    bool
 		sessions []sess
 	}{
+		{"slow upstream: 256 KiB from the client, the server reads 1 KiB every 2 ms, the client hangs up at once", true, []sess{{quarterMB, nil}}},
 		{"one session, frames and text", false, []sess{{append(append([]byte{}, f...), htmlF...), []byte("ICY 200 OK\r\n")}}},
 		{"one session, quiet", true, []sess{{append(append([]byte("GET /<mount> HTTP/1.0\r\n\r\n"), htmlF...), 0xD3), []byte{0x00, 0xD3, '<', 0xFF}}}},
 		{"70001 bytes each way", false, []sess{{big, big[:50000]}}},
@@ -176,12 +181,22 @@ func runLoopback(bin string, quiet bool, sessions [][2][]byte) (kind, detail str
 			c.Write(s[1])
 			var got []byte
 			buf := make([]byte, 4096)
+			slow := len(s[0]) >= 200*1024 // the big one-way case: a server that is slower than the client
+			if slow {
+				if tc, ok := c.(*net.TCPConn); ok {
+					tc.SetReadBuffer(8192)
+				}
+				buf = buf[:1024]
+			}
 			for {
 				c.SetReadDeadline(time.Now().Add(20 * time.Second))
 				n, err := c.Read(buf)
 				got = append(got, buf[:n]...)
 				if err != nil {
 					break
+				}
+				if slow {
+					time.Sleep(2 * time.Millisecond)
 				}
 			}
 			c.Close()
